@@ -76,6 +76,10 @@ func c19Programs() []c19Prog {
 		{"bytes-crlf-source", map[string]string{"main.tsh": "x := 1\r\nprint(x, \"a\\r\\nb\")\r\nif x == 1 {\r\n\tprint(`raw\r\nline`)\r\n}\r\n"}, true},
 		{"bytes-no-final-newline", map[string]string{"main.tsh": "print(\"end\")"}, true},
 		{"bytes-non-ascii", map[string]string{"main.tsh": "print(\"h\u00e9llo \u2713 \\u00e9\")\n"}, true},
+		// every counter of the transpiler and of the converters moves: value lists, loops in loops, helpers, frames,
+		// slice literals, subscripts, call chains (an implementation that keeps a counter across the targets of one
+		// invocation writes other bytes for the second target than the library does)
+		{"every-counter", map[string]string{"main.tsh": "import \"strings\"\n\nfunc two(a int, b string) (int, string) {\n\tx, y := a + 1, b + \"!\"\n\tx, y = x * 2, y + y\n\treturn x, y\n}\nfunc sum(s []int) int {\n\tt := 0\n\tfor _, v := range s {\n\t\tt += v\n\t}\n\treturn t\n}\na, b := 1, 2\na, b = b, a\nn, w := two(a, \"w\")\nfor i := 0; i < 2; i++ {\n\tfor j := 0; j < 2; j++ {\n\t\tif i == j && n > 0 || false {\n\t\t\tcontinue\n\t\t}\n\t\tp, q := i, j\n\t\tp, q = q, p\n\t\tprint(p, q, sum([]int{i, j, 3}))\n\t}\n}\nswitch {\ncase a > b:\n\tprint(w[1:3], len(w), itoa(n))\ndefault:\n\tprint(strings.Repeat(w, 2))\n}\ns := []string{\"x\", \"y\"}\ns[3] = \"z\"\nt := []string{\"\"}\nprint(copy(t, s), len(s), s[3], t[0])\no, e, c := @echo(\"hi\") | @cat()\nprint(o, e, c)\nwrite(\"f.txt\", o)\nprint(read(\"f.txt\"), exists(\"f.txt\"))\n"}, true},
 		{"fail-lexical", map[string]string{"main.tsh": "print(\"unterminated)\n"}, false},
 		{"fail-syntax", map[string]string{"main.tsh": "if true {\n\tprint(1)\n"}, false},
 		{"fail-type", map[string]string{"main.tsh": "x := 1 + \"a\"\n"}, false},
@@ -125,8 +129,8 @@ func checkC19(c *Check) {
 	cases := []c19Case{}
 	orders := []string{"iot", "ito", "oit", "oti", "tio", "toi"}
 	tsets := [][]string{{"bash"}, {"batch"}, {"bash", "batch"}, {"batch", "bash"}, {"bash", "bash"}, {"bash", "batch", "bash"}, {"batch", "batch"}}
-	names := []string{"a.tsh", "a.b.tsh", "noext", ".tsh", "my prog.tsh", "dir/sub/a.tsh", "UPPER.TSH", "a.tsh.bak", "-prog.tsh", "-", "--in", "-t", "a-b.tsh", "dir/sub/-x.tsh", "tools.tsh", "fetch.tsh", "unit test.tsh", "s.tsh", "sh.tsh", "t.h.tsh", "a..tsh", "hosts", "dir/sub/paths.tsh"}
-	outs := []string{".", "out", "ABS:absout", "out dir/with blank", "dir/sub", "-out", "--type"}
+	names := []string{"a.tsh", "a.b.tsh", "noext", ".tsh", "my prog.tsh", "dir/sub/a.tsh", "UPPER.TSH", "a.tsh.bak", "-prog.tsh", "-", "--in", "-t", "a-b.tsh", "dir/sub/-x.tsh", "tools.tsh", "fetch.tsh", "unit test.tsh", "s.tsh", "sh.tsh", "t.h.tsh", "a..tsh", "hosts", "dir/sub/paths.tsh", " lead.tsh", "trail.tsh ", "dir/sub/ both .tsh", "\tt.tsh"}
+	outs := []string{".", "out", "ABS:absout", "out dir/with blank", "dir/sub", "-out", "--type", "out ", " out"}
 	n := 0
 	for pi, p := range progs {
 		for ti, ts := range tsets {
@@ -273,6 +277,14 @@ func c19Run(c *Check, cs c19Case, straceOK bool) {
 	outRel := strings.TrimPrefix(cs.outDir, "ABS:")
 	outAbs := filepath.Join(work, outRel)
 	os.MkdirAll(outAbs, 0o755)
+	// names that begin or end in white space get a twin without it, holding another program (an implementation that
+	// trims option values reads the twin, or writes into the twin directory, and still exits 0)
+	if tb := strings.TrimSpace(filepath.Base(inRel)); tb != filepath.Base(inRel) && tb != "" {
+		os.WriteFile(filepath.Join(work, inDir, tb), []byte("print(\"the twin\")\n"), 0o644)
+	}
+	if to := strings.TrimSpace(outRel); to != outRel && to != "" {
+		os.MkdirAll(filepath.Join(work, to), 0o755)
+	}
 	base := filepath.Base(inRel)
 	base = base[:len(base)-len(filepath.Ext(base))]
 	expectFiles := map[string]string{} // relative to work -> expected content, for successful targets
